@@ -43,6 +43,7 @@ import Generated.FullModulusSpec
 import Generated.AdapterSpec
 import CijProofs.Lemmas.AdapterGuardSource
 import CijProofs.Lemmas.NonShearSource
+import Generated.ReadersSpec
 
 namespace Cij.C13
 
@@ -703,5 +704,16 @@ theorem c13_nonshear_is_source {α : Type} [Cij.NonShear.Scalar α] [Add α] [Su
       Cij.NSExpr.evalBody (Cij.NSExpr.envAt c w T P cv s (Cij.NonShear.mgOff s) a b (Cij.NonShear.valueIsothermalOffAt c w T P s)
         (Cij.NonShear.isoToAdiaAt c.k c.hdk c.na T s.V cv (Cij.NonShear.mgOff s) s.freq w)) Generated.nsAdiaOff :=
   ⟨Cij.NSExpr.valueAdiabaticLong_is_source c w T P cv s a b, Cij.NSExpr.valueAdiabaticOff_is_source c w T P cv s a b⟩
+
+/-- `cij/io/traditional/elast_dat.py` (+ package glue) as translated on this run: `read_elast_data` and
+`apply_symetry_on_elast_data` are the statements the reader model mirrors (rows in file order, lattice block in file order, one frame row
+per volume BY NAME `"c%s%s" % key.v`, `fill_cij(df, **symmetry)` with the caller's dictionary untouched, rows written back as fresh
+mappings from `c_(key[1:])`), and the package re-exports the readers themselves (no caching wrapper) -/
+theorem c13_readers_are_source :
+    Generated.Readers.elastDatCanonical = true ∧ Generated.Readers.columnLiterals = ["c", ""] ∧ Generated.Readers.backSlice = 1 ∧
+    Generated.Readers.fillPositional = 1 ∧ Generated.Readers.fillKeywords = ["**<symmetry>"] ∧
+    Generated.Readers.rowVolumeIndex = 0 ∧ Generated.Readers.rowKeySlice = 1 ∧ Generated.Readers.rowValueSlice = 1 ∧
+    ("read_energy", "qha_input", "read_energy") ∈ Generated.Readers.packageImports ∧
+    ("read_elast_data", "elast_dat", "read_elast_data") ∈ Generated.Readers.packageImports := by decide
 
 end Cij.C13
